@@ -60,4 +60,42 @@ structure SysPrims (σ : Type) where
   sysSend : σ → Int → σ × Int         -- ::send(s, data, size, MSG_NOSIGNAL)
   sysRecv : σ → Int → σ × Int         -- ::recv(s, data, maxSize, 0)
 
+/-- `Socket::Poll::Private::set / remove` for ONE socket (`socket`): the two hash maps as cells of that socket.
+    Iterators are the result of the `find` (found or not), references are the cells themselves. -/
+structure PollPrims (σ : Type) where
+  sockFind : σ → Bool                 -- sockets.find(&socket) != sockets.end()
+  sockEvents : σ → Flags              -- sockInfo.events
+  setSockEvents : σ → Flags → σ
+  sockFd : σ → Int                    -- socket.s
+  sockAppend : σ → σ                  -- sockets.append(&socket, SocketInfo())
+  sockRemove : σ → σ                  -- sockets.remove(it)
+  selFind : σ → Bool                  -- selectedSockets.find(&socket) != selectedSockets.end()
+  selEvents : σ → Flags               -- *it (uint&)
+  setSelEvents : σ → Flags → σ
+  selRemove : σ → σ                   -- selectedSockets.remove(it) / remove(&socket)
+  epollCtl : σ → Nat → NBits → σ      -- VERIFY(epoll_ctl(fd, op, s, &ev) == 0) with ev.events = the mask
+
+/-- one iteration of the timer loop of `Server::Private::run`; `timer` = the value popped by `_queuedTimers.front()` -/
+structure TimerPrims (σ : Type) where
+  queueFrontKey : σ → Int             -- _queuedTimers.begin().key()
+  queueFront : σ → σ                  -- TimerImpl *timer = _queuedTimers.front()   (latches the pointer)
+  curIsUser : σ → Bool                -- timer != nullptr
+  queueRemoveFront : σ → σ
+  timerExec : σ → Int                 -- timer->executionTime
+  setTimerExec : σ → Int → σ
+  timerInterval : σ → Int
+  queueInsertCur : σ → Int → σ        -- _queuedTimers.insert(key, timer)
+  queueInsertDefault : σ → Int → σ    -- _queuedTimers.insert(key, 0)
+  onActivated : σ → σ                 -- timer->callback.onActivated()
+
+/-- one iteration of the closing loop; `client` = `*_closingClients.front()` -/
+structure ClosingPrims (σ : Type) where
+  closingIsEmpty : σ → Bool
+  closingFront : σ → σ                -- ClientImpl &client = *_closingClients.front()   (latches the client)
+  closingRemoveFront : σ → σ
+  hasCallback : σ → Bool              -- client._callback != nullptr
+  removedFlag : σ → Bool              -- client._removed
+  onClosed : σ → σ
+  deleteClient : σ → σ
+
 end Nstd.Server.Tr
